@@ -1,4 +1,5 @@
 import QuantemModel.Lemmas.Drift
+import QuantemModel.Lemmas.DriftSession
 import QuantemModel.Lemmas.RegistrationSpectral
 import QuantemModel.Props.C13
 /-!
@@ -12,7 +13,7 @@ The correlation theorem (hypothesis `hcc` of `identical_stack_fixed_point`) is d
 `identical_stack_fixed_point_of_axis_coeffs` (C13's `patch_strict_of_axis_coeffs_np`).
 -/
 namespace QuantemModel.Props.C15
-open QuantemModel QuantemModel.Registration QuantemModel.Drift Finset
+open QuantemModel QuantemModel.Registration QuantemModel.Drift QuantemModel.DriftSession Finset
 
 /-- **Placement.**  For every image shape `H × W` (square or not), every canvas `Hc × Wc` (hence
 every pad fraction), every pair of scan vectors (hence every scan angle) and every knot count
@@ -343,6 +344,185 @@ theorem gaussian_reflect_asymmetric_counterexample :
   simp only [Finset.sum_range_succ, Finset.sum_range_zero, convReflect, sumN]
   norm_num [reflIdx, wrap]
 
+
+/-! ### histories of public calls on ONE object, calls that raise included (Model/DriftSession.lean) -/
+
+/-- **A call that raises leaves the resampling geometry alone, or has just re-made it from scratch.**  For every
+state and every public operation — `preprocess` in all its rejected forms (`validate_pad_value`, `float()` /
+`int()` conversions, `number_knots < 1`, `int(nan)`, a single image, an empty canvas, `sigma = inf`),
+`align_translation` / `align_affine` with a wrong-typed argument, an even `num_tests`, or an exception raised
+by a callee inside their loops — if the call raises, `shape`/knots/interpolators are exactly what they were
+before the call, or exactly the fresh geometry `preprocess` makes for the object's current images and scan
+directions.  Holds for every carrier (the executed `Float` instance included). -/
+theorem raising_call_keeps_or_resets_geometry {R : Type} [Num R] [NumFloor R] (s : St R) (op : Op R)
+    (h : (step s op).2 ≠ .ok) :
+    (step s op).1.geom = s.geom ∨ ∃ Hc Wc k, (step s op).1.geom = some (freshGeom Hc Wc k s.shapes s.angles) := by
+  cases op with
+  | setAngles a => exact Or.inl rfl
+  | preprocess pad pv sigma nk => exact preprocess_geom s pad pv sigma nk
+  | alignTranslation up ms mn f raw =>
+    simp only [step] at h ⊢
+    rcases alignTranslation_raised s up ms mn f raw h with e | ⟨_, e⟩
+    · rw [e]; exact Or.inl rfl
+    · rw [e]; exact preprocess_geom s _ _ _ _
+  | alignAffine stp nt rf up ms f m =>
+    simp only [step] at h ⊢
+    rw [alignAffine_raised s stp nt rf up ms f m h]
+    exact Or.inl rfl
+
+/-- **Alignment calls are atomic when they raise**: on an object that has knots, an `align_translation` or
+`align_affine` call that raises (wrong-typed argument, even `num_tests`, exception from a callee inside the
+search / registration loop) returns the object in exactly the state it was in — the trial knots of the affine
+search are copies, the measured shifts are applied only after the loop. -/
+theorem raising_alignment_call_is_atomic {R : Type} [Num R] [NumFloor R] (s : St R) (op : Op R)
+    (hk : s.geom ≠ none) (ha : op.isAlign = true) (h : (step s op).2 ≠ .ok) : (step s op).1 = s := by
+  cases op with
+  | setAngles a => simp [Op.isAlign] at ha
+  | preprocess pad pv sigma nk => simp [Op.isAlign] at ha
+  | alignTranslation up ms mn f raw =>
+    simp only [step] at h ⊢
+    rcases alignTranslation_raised s up ms mn f raw h with e | ⟨e, _⟩
+    · exact e
+    · exact absurd e hk
+  | alignAffine stp nt rf up ms f m =>
+    simp only [step] at h ⊢
+    exact alignAffine_raised s stp nt rf up ms f m h
+
+/-- **Invariant over every history.**  Start from `from_data` and apply ANY sequence of public calls — assignments
+to `scan_direction_degrees`, `preprocess` calls (accepted, rejected, failing late), alignment calls — in which no
+alignment call has *succeeded* (they may have been attempted and raised, any number of times, anywhere).  Then
+the knots of every image are exactly the ones `preprocess` places for that image's own shape, knot count and scan
+vectors on the current canvas.  Every carrier. -/
+theorem pristine_before_any_drift_estimate {R : Type} [Num R] [NumFloor R] (shapes : List (ℕ × ℕ)) (angles : List R)
+    (ops : List (Op R)) (h : noDrift (fromData shapes angles) ops) :
+    ∀ g, (run (fromData shapes angles) ops).geom = some g → Pristine g :=
+  run_inv ops _ (fromData_inv shapes angles) h
+
+/-- **Placement after any such history** ("before any drift is estimated"): pixel `(r, c)` of every image of the
+stack — square or not, images of different shapes in one stack included — is placed at the canvas centre plus the
+scan-direction rotation of its offset from the image centre, for 1..4 knots, whatever calls were made and rejected
+before. -/
+theorem placement_after_any_history_without_drift (shapes : List (ℕ × ℕ)) (angles : List ℝ) (ops : List (Op ℝ))
+    (h : noDrift (fromData shapes angles) ops) (g : Geom ℝ) (hg : (run (fromData shapes angles) ops).geom = some g)
+    (im : ImgGeom ℝ) (him : im ∈ g.imgs) (hnk : 1 ≤ im.nk ∧ im.nk ≤ 4) {r c : ℕ} (hr : r < im.H) (hc : c < im.W) :
+    coordsOf im r c
+      = ( ((g.Hc : ℝ) - 1) / 2 + ((c : ℝ) - ((im.W : ℝ) - 1) / 2) * im.scan.f0 + ((r : ℝ) - ((im.H : ℝ) - 1) / 2) * im.scan.s0,
+          ((g.Wc : ℝ) - 1) / 2 + ((c : ℝ) - ((im.W : ℝ) - 1) / 2) * im.scan.f1 + ((r : ℝ) - ((im.H : ℝ) - 1) / 2) * im.scan.s1 ) := by
+  have hp := pristine_before_any_drift_estimate shapes angles ops h g hg im him
+  have : coordsOf im r c = coords g.Hc g.Wc im.H im.W im.nk im.scan r c := by
+    unfold coordsOf coords
+    rw [hp]
+  rw [this, placement g.Hc g.Wc im.H im.W im.nk hnk im.scan hr hc]
+
+/-- **`preprocess` forgets the history**: whether it succeeds, and the geometry it makes when it does, depend on the
+object only through its images' shapes and its *current* scan directions — not on earlier configurations, earlier
+knots, cached scan vectors or rejected calls. -/
+theorem preprocess_forgets_history {R : Type} [Num R] [NumFloor R] (s s' : St R) (hsh : s.shapes = s'.shapes)
+    (hang : s.angles = s'.angles) (pad : NumArg R) (pv : PadArg R) (sigma nk : NumArg R) :
+    (preprocess s pad pv sigma nk).2 = (preprocess s' pad pv sigma nk).2 ∧
+    ((preprocess s pad pv sigma nk).2 = .ok →
+      (preprocess s pad pv sigma nk).1.geom = (preprocess s' pad pv sigma nk).1.geom) := by
+  unfold preprocess
+  rw [hsh, hang]
+  repeat' split
+  all_goals first
+    | exact ⟨rfl, fun h => by simp at h⟩
+    | (constructor
+       · cases lateFailure _ _ _ <;> rfl
+       · intro _; rw [finish_geom, finish_geom])
+
+/-- **`align_translation` moves every pixel by exactly the shift it applies to the knots**, for 1, 2, 3 and 4
+knots and arbitrary (not only initial) knots: the interpolation weights of `transform_rows` add up to one. -/
+theorem translation_moves_every_pixel_by_the_shift (im : ImgGeom ℝ) (hnk : 1 ≤ im.nk ∧ im.nk ≤ 4) (d : ℝ × ℝ) (r c : ℕ) :
+    coordsOf (translateImg im d) r c = ((coordsOf im r c).1 + d.1, (coordsOf im r c).2 + d.2) := by
+  unfold coordsOf translateImg moveKnot
+  simp only [NumReal.add_eq]
+  rw [transformRow_add_const im.nk im.W hnk, transformRow_add_const im.nk im.W hnk]
+
+/-- the shear a successful `align_affine` commits moves the pixels of scan line `r` by `drift · (r − (H−1)/2)` -/
+theorem shear_moves_scan_line_rigidly (im : ImgGeom ℝ) (hnk : 1 ≤ im.nk ∧ im.nk ≤ 4) (d : ℝ × ℝ) (r c : ℕ) :
+    coordsOf (shearImg im d) r c
+      = ((coordsOf im r c).1 + d.1 * ((r : ℝ) - ((im.H : ℝ) - 1) / 2), (coordsOf im r c).2 + d.2 * ((r : ℝ) - ((im.H : ℝ) - 1) / 2)) := by
+  unfold coordsOf shearImg
+  simp only [NumReal.add_eq, NumReal.mul_eq, NumReal.sub_eq, NumReal.ofNat_eq, halfSpan_eq]
+  rw [transformRow_add_const im.nk im.W hnk, transformRow_add_const im.nk im.W hnk]
+
+/-- the shifts `align_translation` applies (`dxy -= mean(dxy)`) add up to zero: the stack as a whole does not move -/
+theorem applied_shifts_sum_to_zero (raw : List (ℝ × ℝ)) :
+    sumPairs (removeMean (((0 : ℝ), (0 : ℝ)) :: raw)) = (0, 0) :=
+  removeMean_sum _ (by simp)
+
+/-- **Fixed point, at the level of the object's state**: when the registration measures zero shifts, the whole
+`align_translation` call — mean removal, the `min_image_shift` rule for any threshold, knot update — returns the
+geometry unchanged, bit for bit, for any number of images and any knots. -/
+theorem zero_shifts_leave_geometry_unchanged (g : Geom ℝ) (mn : Option ℝ) (k : ℕ) :
+    commitTranslation g mn (List.replicate k ((0 : ℝ), (0 : ℝ))) = g := by
+  unfold commitTranslation
+  have h0 : ((Num.zero : ℝ), (Num.zero : ℝ)) :: List.replicate k ((0 : ℝ), (0 : ℝ)) = List.replicate (k + 1) ((0 : ℝ), (0 : ℝ)) := by
+    simp [List.replicate_succ]
+  rw [h0, removeMean_zero, applyMinShift_zero]
+  simp only [zipApply_translate_zero]
+
+/-- … hence a stack of identical images is a fixed point of the `align_translation` CALL on the object (for any
+registration routine that returns zero shift and the unchanged image on identical inputs — C13's is one, see
+`identical_stack_fixed_point_of_axis_coeffs`): outcome ok, state unchanged. -/
+theorem identical_stack_fixed_point_of_the_call (reg : Reg ℝ) (F : FImg ℝ) (hreg : reg F F = ((0, 0), F)) (n : ℕ)
+    (s : St ℝ) (g : Geom ℝ) (hg : s.geom = some g) (mn : Option ℝ) :
+    step s (.alignTranslation .good .good mn false (alignLoop reg F 1 (List.replicate n F))) = (s, .ok) := by
+  simp only [step, alignTranslation, hg]
+  rw [alignLoop_identical reg F hreg, zero_shifts_leave_geometry_unchanged]
+  simp only [reduceCtorEq, or_self, and_false, if_false, Bool.false_eq_true]
+  cases s
+  simp_all
+
+/-- the candidate drift vectors of `align_affine` always contain the zero drift (odd `num_tests = 2h+1`) -/
+theorem affine_candidates_contain_zero_drift (h : ℕ) : ((0 : ℤ), (0 : ℤ)) ∈ affineUnits h := by
+  simp only [affineUnits, List.mem_filter, List.mem_flatMap, List.mem_map, List.mem_range]
+  refine ⟨⟨0, ⟨h, by omega, by simp⟩, ⟨0, ⟨h, by omega, by simp⟩, rfl⟩⟩, ?_⟩
+  simp
+  positivity
+
+/-- `num_tests = 3` searches 9 candidate drifts, `num_tests = 5` searches 21 (the corners of the 5×5 grid fall
+outside the disc `x² + y² ≤ (num_tests/2)²`) -/
+theorem affine_candidate_counts : (affineUnits 1).length = 9 ∧ (affineUnits 2).length = 21 := by
+  constructor <;> decide
+
+/-- **`validate_pad_value` accepts exactly** the four statistic names, numbers in `[0, 1]` and number lists with one
+entry per image; everything else (unknown strings included) is rejected before `preprocess` changes anything. -/
+theorem validate_pad_value_accepts_iff (n : ℕ) (pv : PadArg ℝ) :
+    validatePadValue n pv = .ok () ↔
+      match pv with
+      | .str s => s = "median" ∨ s = "mean" ∨ s = "min" ∨ s = "max"
+      | .num x => 0 ≤ x ∧ x ≤ 1
+      | .numNan => False
+      | .list items => (∀ i ∈ items, i = PadItem.number) ∧ items.length = n
+      | .other => False := by
+  cases pv with
+  | str s => by_cases h : s = "median" ∨ s = "mean" ∨ s = "min" ∨ s = "max" <;> simp [validatePadValue, h]
+  | num x =>
+    simp only [validatePadValue]
+    by_cases h0 : x < 0
+    · simp [h0, not_le.mpr h0]
+    · by_cases h1 : 1 < x
+      · simp [h0, h1, not_le.mpr h1]
+      · simp [h0, h1, not_lt.mp h0, not_lt.mp h1]
+  | numNan => simp [validatePadValue]
+  | list items =>
+    simp only [validatePadValue, List.all_eq_true, decide_eq_true_eq]
+    by_cases ha : ∀ i ∈ items, i = PadItem.number
+    · by_cases hl : items.length = n
+      · simp [hl]
+      · rw [if_pos ha]; simp [hl]
+    · simp [ha]
+  | other => simp [validatePadValue]
+
+/-- a rejected `pad_value` leaves the whole object untouched -/
+theorem rejected_pad_value_changes_nothing {R : Type} [Num R] [NumFloor R] (s : St R) (pad : NumArg R) (pv : PadArg R)
+    (sigma nk : NumArg R) (e : Err) (h : validatePadValue s.shapes.length pv = .error e) :
+    preprocess s pad pv sigma nk = (s, .raised e) := by
+  unfold preprocess
+  rw [h]
+
 /-! ### non-vacuity -/
 
 /-- a concrete configuration (6 × 9 image, 8 × 12 canvas, 3 knots, oblique rational scan vectors):
@@ -373,5 +553,30 @@ example (u : ℝ) : transformRow 4 7 (fun k => 1 + 2 * linspace (0 : ℝ) 1 4 k 
 /-- a point outside the canvas still carries unit weight (wrap indexing) -/
 example : ∑ i ∈ range 3, ∑ j ∈ range 4, splatAt 3 4 (-0.25 : ℝ) (7.5 : ℝ) i j = 1 :=
   weights_unit (by norm_num) (by norm_num) _ _
+
+
+/-- a history with calls that raise satisfies `noDrift`: `preprocess`, then an `align_affine` with an even
+`num_tests` (ValueError), then an `align_translation` with a wrong-typed `upsample_factor` -/
+example (m : AffineMeas ℝ) :
+    noDrift (fromData [(6, 9), (6, 9)] [(30 : ℝ), 30])
+      [.preprocess (.num (1/4)) (.str "median") (.num (1/2)) (.num 1),
+       .alignAffine (1/100) 4 true .good .good false m] := by
+  refine ⟨fun h => by simp [Op.isAlign] at h, fun _ => ?_, trivial⟩
+  simp only [step]
+  unfold alignAffine
+  split <;> simp
+
+/-- `validate_pad_value`: the typo "medain" is rejected, 0.25 and a 2-list for 2 images are accepted -/
+example : validatePadValue 2 (PadArg.str "medain" : PadArg ℝ) = .error .valueError ∧
+    validatePadValue 2 (PadArg.num (1/4) : PadArg ℝ) = .ok () ∧
+    validatePadValue 2 (PadArg.list [.number, .number] : PadArg ℝ) = .ok () := by
+  refine ⟨by simp [validatePadValue], ?_, by simp [validatePadValue]⟩
+  rw [validate_pad_value_accepts_iff]; norm_num
+
+/-- translation equivariance on a concrete bent 3-knot scan line -/
+example (r c : ℕ) : coordsOf (translateImg ⟨4, 5, ⟨0, 1, 1, 0⟩, 3, fun r k => ((r : ℝ) + (k : ℝ) ^ 2, (k : ℝ))⟩ ((1 : ℝ) / 2, -2)) r c
+    = ((coordsOf ⟨4, 5, ⟨0, 1, 1, 0⟩, 3, fun r k => ((r : ℝ) + (k : ℝ) ^ 2, (k : ℝ))⟩ r c).1 + 1 / 2,
+       (coordsOf ⟨4, 5, ⟨0, 1, 1, 0⟩, 3, fun r k => ((r : ℝ) + (k : ℝ) ^ 2, (k : ℝ))⟩ r c).2 + -2) :=
+  translation_moves_every_pixel_by_the_shift _ (by norm_num) _ r c
 
 end QuantemModel.Props.C15
